@@ -13,3 +13,5 @@ for c in "$@"; do
   [ -f /tmp/ev-$c-$$.json ] && mv /tmp/ev-$c-$$.json evidence/$c.json
 done
 git -C /repo worktree remove --force "$W"
+# the run regenerated lean/AdaptaVerif/Gen from the scratch tree: restore it from /repo
+python3 /verif/tools/cpp2lean/jobs.py >/dev/null 2>&1
